@@ -12,6 +12,13 @@ import (
 func (c *fnCtx) call(in ssa.Instruction, cc *ssa.CallCommon, rt types.Type) *Val {
 	pos := in.Pos()
 	if bi, ok := cc.Value.(*ssa.Builtin); ok {
+		if c.ct != nil && len(c.ct.Asserts) > 0 {
+			var bargs []*Val
+			for _, a := range cc.Args {
+				bargs = append(bargs, c.val(a))
+			}
+			c.anchoredAsserts(in, bi.Name(), cc, bargs)
+		}
 		return c.builtin(in, bi, cc, rt)
 	}
 	var args []*Val
@@ -19,7 +26,11 @@ func (c *fnCtx) call(in ssa.Instruction, cc *ssa.CallCommon, rt types.Type) *Val
 		args = append(args, c.val(a))
 	}
 	if cc.IsInvoke() {
+		c.anchoredAsserts(in, cc.Method.Name(), cc, args)
 		return c.invoke(in, cc, args, rt)
+	}
+	if sc := cc.StaticCallee(); sc != nil {
+		c.anchoredAsserts(in, sc.Name(), cc, args)
 	}
 	callee := cc.StaticCallee()
 	var closure *ssa.MakeClosure
